@@ -1,0 +1,26 @@
+//go:build verif
+// +build verif
+
+package anndb
+
+// Verification hooks (build tag "verif") for the conformance harness in /verif.
+
+import (
+	"github.com/marekgalovic/anndb/storage"
+	"github.com/marekgalovic/anndb/storage/raft"
+)
+
+// VerifGate is called at "setup.afterZeroStart" (between starting the zero group and
+// registering its consumers); the harness may block or sleep in it.
+var VerifGate func(point string)
+
+func verifGate(point string) {
+	if g := VerifGate; g != nil {
+		g(point)
+	}
+}
+
+func (this *Server) VerifZeroGroup() *raft.RaftGroup             { return this.zeroGroup }
+func (this *Server) VerifDatasetManager() *storage.DatasetManager { return this.datasetManager }
+func (this *Server) VerifNodesManager() *raft.NodesManager        { return this.nodesManager }
+func (this *Server) VerifNodeId() uint64                          { return this.config.RaftNodeId }
